@@ -1241,6 +1241,8 @@ def monitor_c09(sc: dict, res: dict) -> List[Tuple[str, Any, dict]]:
                     {**base, "error": res["sendtask_error"]}))
     if res["reader_error"]:
         out.append(("reader_died", res["reader_error"], {**base, "error": res["reader_error"].split(":")[0]}))
+    if res.get("runaway"):
+        return out                      # the recorded trace is truncated; the run is reported as spinning, nothing else is judged
     # in order, nothing invented, END_STREAM at most once and only after everything
     for sid_s in res["apps"]:
         sid = int(sid_s)
